@@ -206,13 +206,42 @@ func runC05(c *Ctx, r *Run) {
 	checkUnmarshalers(c, r)
 
 	// ---- PANIC-5
+	type filterFn struct {
+		fn   *ssa.Function
+		msg  *ssa.Parameter
+		name string
+	}
+	var filters []filterFn
+	seenFilter := map[*ssa.Function]bool{}
 	for _, hn := range []string{"MultiHandler", "TwoPartyHandler"} {
 		for _, mn := range []string{"canAccept", "CanAccept"} {
 			fn := c.LookupMethod("pkg/protocol", hn, mn)
 			if fn == nil || len(fn.Params) < 2 {
 				continue
 			}
-			msg := fn.Params[1]
+			filters = append(filters, filterFn{fn, fn.Params[1], "pkg/protocol." + hn + "." + mn})
+			// helpers of the package that are handed the message (a header filter shared by the handlers)
+			allInstrs(fn, func(in ssa.Instruction) {
+				call, ok := in.(*ssa.Call)
+				if !ok {
+					return
+				}
+				g := localHelperOf(call)
+				if g == nil || seenFilter[g] || canonFnName(g) == "canAccept" {
+					return
+				}
+				for k, a := range call.Call.Args {
+					if a == ssa.Value(fn.Params[1]) && k < len(g.Params) {
+						seenFilter[g] = true
+						filters = append(filters, filterFn{g, g.Params[k], c.FuncName(g)})
+					}
+				}
+			})
+		}
+	}
+	for _, ff := range filters {
+		{
+			fn, msg := ff.fn, ff.msg
 			bad := ""
 			n := 0
 			allInstrs(fn, func(in ssa.Instruction) {
@@ -237,6 +266,24 @@ func runC05(c *Ctx, r *Run) {
 					if !isIf {
 						continue
 					}
+					// the test may live in a helper that is handed the message and refuses nil: `if !headerOK(msg, r) { return false }`
+					if call := condCall(iff.Cond); call != nil {
+						if g := call.Call.StaticCallee(); g != nil {
+							for k, a := range call.Call.Args {
+								if a != ssa.Value(msg) || !calleeRefusesNil(g, k, 0) {
+									continue
+								}
+								// the passing edge of the helper's verdict dominates the dereference
+								pass := p.Succs[0]
+								if _, neg := iff.Cond.(*ssa.UnOp); neg {
+									pass = p.Succs[1]
+								}
+								if pass == d {
+									ok = true
+								}
+							}
+						}
+					}
 					bo, isB := iff.Cond.(*ssa.BinOp)
 					if !isB || bo.X != ssa.Value(msg) || !isNilConst(bo.Y) {
 						continue
@@ -250,7 +297,7 @@ func runC05(c *Ctx, r *Run) {
 				}
 			})
 			if n > 0 {
-				r.Check("PANIC-5", "pkg/protocol."+hn+"."+mn+"|nil-message", c.Pos(fn.Pos()), bad == "", "a nil message is rejected before any field is read", "message dereferenced at "+bad+" without a preceding nil test")
+				r.Check("PANIC-5", ff.name+"|nil-message", c.Pos(fn.Pos()), bad == "", "a nil message is rejected before any field is read", "message dereferenced at "+bad+" without a preceding nil test")
 			}
 		}
 	}
